@@ -8,7 +8,9 @@ from props import REGISTRY
 
 MUTATIONS = ["none", "none", "no_outer", "no_inner", "swap_outer_inner", "outer_in_inner", "unequal_nesting", "nonvoid", "break_in_inner",
              "continue_in_outer", "hdr_no_init", "hdr_two_decl", "hdr_float_iter", "hdr_neq", "hdr_other_var", "hdr_mul_update",
-             "shared_in_inner", "exclusive_in_inner", "shared_outside_outer", "exclusive_outside_outer", "shared_scalar", "shared_runtime_size"]
+             "shared_in_inner", "exclusive_in_inner", "shared_outside_outer", "exclusive_outside_outer", "shared_scalar", "shared_runtime_size",
+             # rule broken in ONE nest only, next to a valid nest (before / after it)
+             "stray_inner_before", "stray_inner_after", "outer_without_inner_before", "outer_without_inner_after"]
 
 
 _cycle = [0]
@@ -88,6 +90,14 @@ def mutate(okl, d, name):
         mm = re.search(r"@kernel void \w+\([^\n]*\) \{\n", okl)
         decl = "  @shared int zsh[4];\n" if mu == "shared_outside_outer" else "  @exclusive int zex;\n"
         return okl[:mm.end()] + decl + okl[mm.end():]
+    if mu in ("stray_inner_before", "outer_without_inner_before"):
+        mm = re.search(r"@kernel void \w+\([^\n]*\) \{\n", okl)
+        attr = "@inner" if mu == "stray_inner_before" else "@outer"
+        return okl[:mm.end()] + "  for (int zq = 0; zq < 2; ++zq; %s) {\n    cnt[0] = cnt[0];\n  }\n" % attr + okl[mm.end():]
+    if mu in ("stray_inner_after", "outer_without_inner_after"):
+        idx = okl.rstrip().rfind("}")
+        attr = "@inner" if mu == "stray_inner_after" else "@outer"
+        return okl[:idx] + "  for (int zq = 0; zq < 2; ++zq; %s) {\n    cnt[0] = cnt[0];\n  }\n" % attr + okl[idx:]
     if mu in ("shared_scalar", "shared_runtime_size"):
         mm = re.search(r"for \(int o0[^\n]*@outer[^\n]*\{\n", okl)
         decl = "    @shared int zsc;\n" if mu == "shared_scalar" else "    @shared int zsr[n];\n"
@@ -123,7 +133,8 @@ class C22Spec(v_okl.Spec):
             "removed; @outer and @inner swapped (@inner outside @outer); an @outer loop inside an @inner loop; sibling inner nests of different depth; "
             "non-void return type; break directly in an @inner loop; continue directly in an @outer loop; loop header without init / with two "
             "declarators / float iterator / != comparison / update of another variable / *= update; @shared or @exclusive declared inside @inner or "
-            "outside @outer; @shared scalar; @shared array with run-time size.  Every case is given to all 7 translators in-process: mutants must be "
+            "outside @outer; @shared scalar; @shared array with run-time size; a stray top-level @inner loop, or an @outer loop without @inner, placed before or "
+            "after an otherwise valid nest (the rule is broken in one nest only).  Every case is given to all 7 translators in-process: mutants must be "
             "rejected (errors or occa::exception), unmutated kernels accepted, and the 7 verdicts must agree.  Non-trivial = every mutated case.")
     assume = ["@atomic is only used in the statement forms every backend documents (+=, -=); block-form @atomic is not generated",
               "a translator crash (sanitizer abort) on a mutant is reported as a violation of C22 too (it is not a rejection)"]
